@@ -1,0 +1,97 @@
+//go:build verif
+
+package db
+
+import (
+	"fmt"
+	"os"
+	"runtime"
+	"strings"
+	"sync"
+)
+
+// Verification hooks (build tag verif): count durable LevelDB writes, label them by database and
+// call site, and stop the process before the N-th one (crash-point enumeration).
+
+var (
+	verifMu      sync.Mutex
+	verifArmed   bool
+	verifCount   int64
+	verifCrashAt int64
+	verifLog     *os.File
+	verifNames   = map[*GoLevelDB]string{}
+)
+
+// VerifArm starts counting durable writes. crashAt > 0: the process exits with status 77 right before
+// the crashAt-th write. logPath != "": one line "<n> <db> <site> <caller>" per write.
+func VerifArm(crashAt int64, logPath string) {
+	verifMu.Lock()
+	defer verifMu.Unlock()
+	verifArmed = true
+	verifCount = 0
+	verifCrashAt = crashAt
+	if logPath != "" {
+		f, err := os.OpenFile(logPath, os.O_CREATE|os.O_WRONLY|os.O_APPEND, 0o644)
+		if err == nil {
+			verifLog = f
+		}
+	}
+}
+
+// VerifDisarm stops counting and returns the number of writes seen.
+func VerifDisarm() int64 {
+	verifMu.Lock()
+	defer verifMu.Unlock()
+	verifArmed = false
+	if verifLog != nil {
+		verifLog.Close()
+		verifLog = nil
+	}
+	return verifCount
+}
+
+func verifRegisterDB(db *GoLevelDB, name, dir string) {
+	verifMu.Lock()
+	verifNames[db] = name
+	verifMu.Unlock()
+}
+
+func verifCaller() string {
+	pcs := make([]uintptr, 16)
+	n := runtime.Callers(3, pcs)
+	frames := runtime.CallersFrames(pcs[:n])
+	for {
+		f, more := frames.Next()
+		if f.Function != "" && !strings.Contains(f.Function, "/common/db.") && !strings.Contains(f.Function, "/common/db/") {
+			fn := f.Function
+			if i := strings.LastIndex(fn, "/"); i >= 0 {
+				fn = fn[i+1:]
+			}
+			return fmt.Sprintf("%s:%d", fn, f.Line)
+		}
+		if !more {
+			return "?"
+		}
+	}
+}
+
+func verifDurableWrite(db *GoLevelDB, site string) {
+	verifMu.Lock()
+	if !verifArmed {
+		verifMu.Unlock()
+		return
+	}
+	verifCount++
+	n := verifCount
+	if verifLog != nil {
+		fmt.Fprintf(verifLog, "%d %s %s %s\n", n, verifNames[db], site, verifCaller())
+	}
+	if verifCrashAt > 0 && n == verifCrashAt {
+		if verifLog != nil {
+			verifLog.Sync()
+		}
+		// simulated process stop between two durable writes: no deferred functions, no flush
+		os.Exit(77)
+	}
+	verifMu.Unlock()
+}
